@@ -18,14 +18,117 @@ the message and the 12 bytes reserved for block options -/
 def blockBudget (messageSize totalPayload maxTotal : Nat) : Nat :=
   maxTotal - ((messageSize + Consts.blockOptionsMaxLength) - totalPayload)
 
+/-! helpers -/
+
+theorem size_bounds_of_szx (r : BlockValue) (h : r.szx ≤ 7) : 16 ≤ r.size ∧ r.size ≤ 2048 := by
+  unfold BlockValue.size
+  have h1 : 2 ^ 4 ≤ 2 ^ (r.szx + 4) := Nat.pow_le_pow_right (by omega) (by omega)
+  have h2 : 2 ^ (r.szx + 4) ≤ 2 ^ 11 := Nat.pow_le_pow_right (by omega) (by omega)
+  simpa using And.intro h1 h2
+
+theorem log_szx (sz : Nat) (h1 : 1 ≤ sz) (h2 : sz < 4096) :
+    Nat.log2 sz - 4 ≤ 7 ∧ (16 ≤ sz → 2 ^ (Nat.log2 sz - 4 + 4) ≤ sz) ∧
+    (sz < 16 → Nat.log2 sz - 4 = 0) ∧ (sz < 2048 → Nat.log2 sz - 4 ≤ 6) := by
+  have hne : sz ≠ 0 := by omega
+  refine ⟨?_, ?_, ?_, ?_⟩
+  · have : Nat.log2 sz < 12 := (Nat.log2_lt hne).2 (by simpa using h2)
+    omega
+  · intro h16
+    have hge : 4 ≤ Nat.log2 sz := (Nat.le_log2 hne).2 (by simpa using h16)
+    have he : Nat.log2 sz - 4 + 4 = Nat.log2 sz := by omega
+    rw [he]
+    exact Nat.log2_self_le hne
+  · intro h16
+    have : Nat.log2 sz < 4 := (Nat.log2_lt hne).2 (by simpa using h16)
+    omega
+  · intro h
+    have : Nat.log2 sz < 11 := (Nat.log2_lt hne).2 (by simpa using h)
+    omega
+
+theorem newBlock_ok (num : Nat) (more : Bool) (sz : Nat)
+    (h1 : 1 ≤ sz) (h2 : sz < 4096) (hn : num ≤ 65535) :
+    newBlock num more sz = .ok (some { num := num, more := more, szx := Nat.log2 sz - 4 }) := by
+  unfold newBlock
+  rw [C13.new_ok num more sz h1 h2 hn]
+
+theorem newBlock_err (num : Nat) (more : Bool) (sz : Nat)
+    (h : sz = 0 ∨ 4096 ≤ sz ∨ 65535 < num) : newBlock num more sz = internal := by
+  unfold newBlock
+  rw [C13.new_err num more sz h]
+
+theorem newBlock_cases (num : Nat) (more : Bool) (sz : Nat) :
+    newBlock num more sz = internal ∨
+    (1 ≤ sz ∧ sz < 4096 ∧ num ≤ 65535 ∧
+      newBlock num more sz = .ok (some { num := num, more := more, szx := Nat.log2 sz - 4 })) := by
+  by_cases h : sz = 0 ∨ 4096 ≤ sz ∨ 65535 < num
+  · exact Or.inl (newBlock_err num more sz h)
+  · have h1 : 1 ≤ sz := by omega
+    have h2 : sz < 4096 := by omega
+    have h3 : num ≤ 65535 := by omega
+    exact Or.inr ⟨h1, h2, h3, newBlock_ok num more sz h1 h2 h3⟩
+
+/-- normal form of `negotiate` in terms of the block budget -/
+theorem negotiate_eq (rb : Option BlockValue) (ms tp M : Nat) :
+    negotiate rb ms tp M =
+      if blockBudget ms tp M = 0 then internal
+      else match rb with
+        | some r =>
+          newBlock (r.num * r.size / min r.size (blockBudget ms tp M))
+            (decide (r.num * r.size + min r.size (blockBudget ms tp M) < tp))
+            (min r.size (blockBudget ms tp M))
+        | none =>
+          if tp < blockBudget ms tp M then .ok none
+          else newBlock 0 true (blockBudget ms tp M) := by
+  unfold negotiate blockBudget
+  simp only []
+  by_cases h : M < ms + Consts.blockOptionsMaxLength - tp
+  · have h0 : M - (ms + Consts.blockOptionsMaxLength - tp) = 0 := by omega
+    simp [h, h0]
+  · simp only [h, ↓reduceIte]
+    cases rb <;> rfl
+
+theorem internal_ne_ok {α} (a : α) : (internal : HRes α) ≠ .ok a := by
+  unfold internal; intro h; cases h
+
 theorem negotiate_never_panics (rb : Option BlockValue) (ms tp M : Nat) :
     negotiate rb ms tp M ≠ .panic := by
-  sorry
+  rw [negotiate_eq]
+  split
+  · unfold internal; intro h; cases h
+  · split
+    · rename_i r
+      rcases newBlock_cases (r.num * r.size / min r.size (blockBudget ms tp M))
+        (decide (r.num * r.size + min r.size (blockBudget ms tp M) < tp))
+        (min r.size (blockBudget ms tp M)) with h | ⟨_, _, _, h⟩ <;> rw [h]
+      · unfold internal; intro h; cases h
+      · intro h; cases h
+    · split
+      · intro h; cases h
+      · rcases newBlock_cases 0 true (blockBudget ms tp M) with h | ⟨_, _, _, h⟩ <;> rw [h]
+        · unfold internal; intro h; cases h
+        · intro h; cases h
 
 /-- errors of `negotiate` carry the 5.00 code -/
 theorem negotiate_err (rb : Option BlockValue) (ms tp M : Nat) (c : Option ResponseType)
     (h : negotiate rb ms tp M = .herr c) : c = some .InternalServerError := by
-  sorry
+  rw [negotiate_eq] at h
+  have hint : ∀ c, (internal : HRes (Option BlockValue)) = .herr c →
+      c = some .InternalServerError := by
+    intro c h; unfold internal at h; injection h with h; exact h.symm
+  split at h
+  · exact hint c h
+  · split at h
+    · rename_i r
+      rcases newBlock_cases (r.num * r.size / min r.size (blockBudget ms tp M))
+        (decide (r.num * r.size + min r.size (blockBudget ms tp M) < tp))
+        (min r.size (blockBudget ms tp M)) with h' | ⟨_, _, _, h'⟩ <;> rw [h'] at h
+      · exact hint c h
+      · cases h
+    · split at h
+      · cases h
+      · rcases newBlock_cases 0 true (blockBudget ms tp M) with h' | ⟨_, _, _, h'⟩ <;> rw [h'] at h
+        · exact hint c h
+        · cases h
 
 /-- whenever a block is chosen, it is well-formed, its size is a power of two
 between 16 and the block budget's power-of-two floor, never larger than the
@@ -37,14 +140,94 @@ theorem negotiate_some (rb : Option BlockValue) (ms tp M : Nat) (b : BlockValue)
     (16 ≤ blockBudget ms tp M → b.size ≤ blockBudget ms tp M) ∧
     (∀ r, rb = some r → b.size ≤ r.size) ∧
     (rb = none → b.num = 0 ∧ b.more = true ∧ blockBudget ms tp M ≤ tp) := by
-  sorry
+  have hbs : ∀ (n : Nat) (m : Bool) (s : Nat),
+      BlockValue.size { num := n, more := m, szx := s } = 2 ^ (s + 4) := fun _ _ _ => rfl
+  rw [negotiate_eq] at h
+  split at h
+  · exact absurd h (internal_ne_ok _)
+  · rename_i hB
+    split at h
+    · rename_i r
+      have hr := hrb r rfl
+      have hsz := size_bounds_of_szx r hr.2
+      rcases newBlock_cases (r.num * r.size / min r.size (blockBudget ms tp M))
+        (decide (r.num * r.size + min r.size (blockBudget ms tp M) < tp))
+        (min r.size (blockBudget ms tp M)) with h' | ⟨h1, h2, h3, h'⟩ <;> rw [h'] at h
+      · exact absurd h (internal_ne_ok _)
+      · injection h with h
+        injection h with h
+        subst h
+        obtain ⟨l1, l2, l3, _⟩ := log_szx _ h1 h2
+        refine ⟨⟨h3, l1⟩, rfl, ?_, ?_, ?_⟩
+        · intro h16
+          have := l2 (by omega)
+          rw [hbs]
+          omega
+        · intro r' hr'
+          injection hr' with hr'
+          subst hr'
+          rw [hbs]
+          by_cases hc : 16 ≤ min r.size (blockBudget ms tp M)
+          · have := l2 hc
+            omega
+          · have := l3 (by omega)
+            rw [this]
+            omega
+        · intro hn; cases hn
+    · split at h
+      · cases h
+      · rename_i htp
+        rcases newBlock_cases 0 true (blockBudget ms tp M) with h' | ⟨h1, h2, h3, h'⟩ <;> rw [h'] at h
+        · exact absurd h (internal_ne_ok _)
+        · injection h with h
+          injection h with h
+          subst h
+          obtain ⟨l1, l2, l3, _⟩ := log_szx _ h1 h2
+          refine ⟨⟨h3, l1⟩, rfl, ?_, ?_, ?_⟩
+          · intro h16
+            exact l2 h16
+          · intro r' hr'; cases hr'
+          · intro _
+            exact ⟨rfl, rfl, by omega⟩
 
 /-- with at least 16 bytes of block budget (i.e. `M ≥ overhead + 28`) and at
 most 1280 in total, the size exponent stays in 0..6 (16..1024 bytes) -/
 theorem negotiate_szx_le_6 (rb : Option BlockValue) (ms tp M : Nat) (b : BlockValue)
     (hrb : ∀ r, rb = some r → BvOk r) (hms : tp ≤ ms) (hM : M ≤ 1280)
     (h : negotiate rb ms tp M = .ok (some b)) : b.szx ≤ 6 := by
-  sorry
+  have hB : blockBudget ms tp M ≤ 1280 := by unfold blockBudget; omega
+  rw [negotiate_eq] at h
+  split at h
+  · exact absurd h (internal_ne_ok _)
+  · split at h
+    · rename_i r
+      rcases newBlock_cases (r.num * r.size / min r.size (blockBudget ms tp M))
+        (decide (r.num * r.size + min r.size (blockBudget ms tp M) < tp))
+        (min r.size (blockBudget ms tp M)) with h' | ⟨h1, h2, h3, h'⟩ <;> rw [h'] at h
+      · exact absurd h (internal_ne_ok _)
+      · injection h with h
+        injection h with h
+        subst h
+        obtain ⟨_, _, _, l4⟩ := log_szx _ h1 h2
+        exact l4 (by omega)
+    · split at h
+      · cases h
+      · rcases newBlock_cases 0 true (blockBudget ms tp M) with h' | ⟨h1, h2, h3, h'⟩ <;> rw [h'] at h
+        · exact absurd h (internal_ne_ok _)
+        · injection h with h
+          injection h with h
+          subst h
+          obtain ⟨_, _, _, l4⟩ := log_szx _ h1 h2
+          exact l4 (by omega)
+
+theorem log2_two_pow' (n : Nat) : Nat.log2 (2 ^ n) = n := by
+  have hne : (2 : Nat) ^ n ≠ 0 := by
+    have : 0 < 2 ^ n := Nat.two_pow_pos n
+    omega
+  have h1 : n ≤ Nat.log2 (2 ^ n) := (Nat.le_log2 hne).2 (Nat.le_refl _)
+  have h2 : Nat.log2 (2 ^ n) < n + 1 :=
+    (Nat.log2_lt hne).2 (Nat.pow_lt_pow_right (by omega) (by omega))
+  omega
 
 /-- when the client's size fits the budget, exactly that size and the client's
 block number are used -/
@@ -52,14 +235,44 @@ theorem negotiate_exact (r : BlockValue) (ms tp M : Nat) (hr : BvOk r) (hms : tp
     (hfit : r.size ≤ blockBudget ms tp M) (h4 : r.szx ≤ 7) :
     negotiate (some r) ms tp M =
       .ok (some { num := r.num, more := decide (r.num * r.size + r.size < tp), szx := r.szx }) := by
-  sorry
+  have hsz := size_bounds_of_szx r h4
+  rw [negotiate_eq]
+  have hB : ¬ blockBudget ms tp M = 0 := by omega
+  simp only [hB, ↓reduceIte]
+  have hmin : min r.size (blockBudget ms tp M) = r.size := by omega
+  rw [hmin]
+  have hdiv : r.num * r.size / r.size = r.num := Nat.mul_div_cancel _ (by omega)
+  rw [hdiv, newBlock_ok _ _ _ (by omega) (by omega) hr.1]
+  have : Nat.log2 r.size - 4 = r.szx := by
+    unfold BlockValue.size
+    rw [log2_two_pow']
+    omega
+  rw [this]
 
 /-- no block option is produced iff the client asked for none and the payload
 is smaller than the budget -/
 theorem negotiate_none (ms tp M : Nat) (hms : tp ≤ ms) :
     negotiate none ms tp M = .ok none ↔
       ((ms + Consts.blockOptionsMaxLength) - tp ≤ M ∧ tp < blockBudget ms tp M) := by
-  sorry
+  rw [negotiate_eq]
+  constructor
+  · intro h
+    split at h
+    · exact absurd h (internal_ne_ok _)
+    · rename_i hB
+      simp only at h
+      split at h
+      · rename_i htp
+        refine ⟨?_, htp⟩
+        unfold blockBudget at hB
+        omega
+      · rcases newBlock_cases 0 true (blockBudget ms tp M) with h' | ⟨h1, h2, h3, h'⟩ <;> rw [h'] at h
+        · exact absurd h (internal_ne_ok _)
+        · injection h with h
+          cases h
+  · intro ⟨_, h2⟩
+    have hB : ¬ blockBudget ms tp M = 0 := by omega
+    simp [hB, h2]
 
 /-! ### chunks and reassembly -/
 
@@ -68,17 +281,66 @@ theorem chunkAt_length (body : Bytes) (size k : Nat) (c : Bytes) (more : Bool)
     c.length ≤ size ∧ (more = true → c.length = size) ∧
     c = (body.drop (k * size)).take size ∧
     (more = true ↔ (k + 1) * size < body.length) := by
-  sorry
+  have hk : (k + 1) * size = k * size + size := Nat.succ_mul k size
+  unfold chunkAt at h
+  split at h
+  · rename_i hlt
+    injection h with h
+    injection h with hc hm
+    subst hc hm
+    refine ⟨?_, ?_, rfl, ?_⟩
+    · simp only [List.length_take, List.length_drop]; omega
+    · simp only [List.length_take, List.length_drop, decide_eq_true_eq]
+      intro h; omega
+    · simp only [decide_eq_true_eq]
+  · rename_i hge
+    split at h
+    · rename_i h0
+      injection h with h
+      injection h with hc hm
+      subst hc hm
+      obtain ⟨hk0, hl⟩ := h0
+      have hb : body = [] := List.eq_nil_of_length_eq_zero hl
+      subst hb hk0
+      simp
+    · cases h
 
 theorem chunkAt_some_iff (body : Bytes) (size k : Nat) :
     (chunkAt body size k).isSome ↔ (k * size < body.length ∨ (k = 0 ∧ body = [])) := by
-  sorry
+  unfold chunkAt
+  split
+  · rename_i h; simp [h]
+  · rename_i h
+    split
+    · rename_i h0
+      have hb : body = [] := List.eq_nil_of_length_eq_zero h0.2
+      simp [h0.1, hb]
+    · rename_i h0
+      simp only [Option.isSome_none, Bool.false_eq_true, false_iff]
+      intro hc
+      rcases hc with hc | ⟨hc1, hc2⟩
+      · exact h hc
+      · exact h0 ⟨hc1, by simp [hc2]⟩
+
+theorem chunkAt_fst (body : Bytes) (size k : Nat) :
+    ((chunkAt body size k).map (·.1)).getD [] = (body.drop (k * size)).take size := by
+  unfold chunkAt
+  split
+  · simp
+  · rename_i h
+    have : body.drop (k * size) = [] := List.drop_eq_nil_of_le (by omega)
+    rw [this]
+    split <;> simp
 
 /-- fetching blocks 0,1,2,… at one size reassembles the body: the first `n`
 chunks concatenate to the first `n·size` bytes -/
 theorem chunks_concat (body : Bytes) (size n : Nat) (hs : 0 < size) :
     ((List.range n).flatMap (fun k => ((chunkAt body size k).map (·.1)).getD [])) = body.take (n * size) := by
-  sorry
+  induction n with
+  | zero => simp
+  | succ n ih =>
+    rw [List.range_succ, List.flatMap_append, ih, Nat.succ_mul, List.take_add]
+    simp [chunkAt_fst]
 
 /-- general tiling (covers a size reduced mid-transfer): if each fetched piece
 is the chunk at the current offset, the pieces concatenate to a prefix of the
@@ -86,7 +348,32 @@ body and the offset advances by the piece's length -/
 theorem tiling_step (body : Bytes) (off size k : Nat) (c : Bytes) (more : Bool)
     (hk : k * size = off) (h : chunkAt body size k = some (c, more)) :
     body.take off ++ c = body.take (off + c.length) ∧ (more = false → off + c.length = body.length) := by
-  sorry
+  have hk1 : (k + 1) * size = k * size + size := Nat.succ_mul k size
+  subst hk
+  unfold chunkAt at h
+  split at h
+  · rename_i hlt
+    injection h with h
+    injection h with hc hm
+    subst hc hm
+    constructor
+    · rw [List.take_add]
+      congr 1
+      rw [List.length_take, ← List.take_take, List.take_length]
+    · intro hm
+      simp only [decide_eq_false_iff_not] at hm
+      simp only [List.length_take, List.length_drop]
+      omega
+  · split at h
+    · rename_i h0
+      injection h with h
+      injection h with hc hm
+      subst hc hm
+      obtain ⟨hk0, hl⟩ := h0
+      have hb : body = [] := List.eq_nil_of_length_eq_zero hl
+      subst hb hk0
+      simp
+    · cases h
 
 /-! ### the upload splice -/
 
@@ -94,12 +381,31 @@ theorem splice_grow_bound (dst : Bytes) (start stop : Nat) (payload : Bytes) (ma
     (hss : start ≤ stop) (h : extendingSplice dst start stop payload maxR = some r) :
     r.length ≤ dst.length + maxR + payload.length ∧
     r.length = max dst.length stop - (stop - start) + payload.length := by
-  sorry
+  unfold extendingSplice at h
+  simp only at h
+  split at h
+  · rename_i hge
+    split at h
+    · cases h
+    · rename_i hR
+      simp only [Option.map_some] at h
+      injection h with h
+      subst h
+      simp only [List.length_append, List.length_take, List.length_drop, List.length_replicate]
+      omega
+  · rename_i hlt
+    simp only [Option.map_some] at h
+    injection h with h
+    subst h
+    simp only [List.length_append, List.length_take, List.length_drop]
+    omega
 
 /-- a block whose end would need a jump of more than the reserve is rejected -/
 theorem splice_reject (dst : Bytes) (start stop : Nat) (payload : Bytes) (maxR : Nat)
     (h : stop - dst.length > maxR) : extendingSplice dst start stop payload maxR = none := by
-  sorry
+  unfold extendingSplice
+  have h1 : stop ≥ dst.length := by omega
+  simp [h1, h]
 
 /-- in-order delivery: with the first `k` full blocks buffered, block `k`
 (full or final) extends the buffer to the first `k·s + |chunk|` bytes -/
@@ -107,13 +413,43 @@ theorem splice_in_order (B : Bytes) (s k : Nat) (maxR : Nat) (hs : 0 < s) (hR : 
     (hk : k * s ≤ B.length) :
     extendingSplice (B.take (k * s)) (k * s) (k * s + s) ((B.drop (k * s)).take s) maxR =
       some (B.take (k * s + s)) := by
-  sorry
+  unfold extendingSplice
+  have hl : (B.take (k * s)).length = k * s := by rw [List.length_take]; omega
+  have h1 : k * s + s ≥ (B.take (k * s)).length := by omega
+  have h2 : ¬ (k * s + s - (B.take (k * s)).length > maxR) := by omega
+  simp only [h1, h2, ↓reduceIte, Option.map_some]
+  congr 1
+  have e1 : (List.take (k * s) B ++ List.replicate (k * s + s - (List.take (k * s) B).length) 0).take (k * s)
+      = List.take (k * s) B := by
+    rw [List.take_append_of_le_length (by omega), List.take_take, Nat.min_self]
+  have e2 : (List.take (k * s) B ++ List.replicate (k * s + s - (List.take (k * s) B).length) 0).drop (k * s + s)
+      = [] := by
+    apply List.drop_of_length_le
+    simp only [List.length_append, List.length_replicate]; omega
+  rw [e1, e2, List.append_nil, List.take_add]
 
 /-- re-delivery of the block just stored changes nothing -/
 theorem splice_duplicate (B : Bytes) (s k : Nat) (maxR : Nat) (hs : 0 < s) (hR : s ≤ maxR)
     (hk : k * s + s ≤ B.length) :
     extendingSplice (B.take (k * s + s)) (k * s) (k * s + s) ((B.drop (k * s)).take s) maxR =
       some (B.take (k * s + s)) := by
-  sorry
+  unfold extendingSplice
+  have hl : (B.take (k * s + s)).length = k * s + s := by rw [List.length_take]; omega
+  have h1 : k * s + s ≥ (B.take (k * s + s)).length := by omega
+  have h2 : ¬ (k * s + s - (B.take (k * s + s)).length > maxR) := by omega
+  simp only [h1, h2, ↓reduceIte, Option.map_some]
+  congr 1
+  have e1 : (List.take (k * s + s) B ++
+      List.replicate (k * s + s - (List.take (k * s + s) B).length) 0).take (k * s)
+      = List.take (k * s) B := by
+    rw [List.take_append_of_le_length (by omega), List.take_take]
+    congr 1
+    omega
+  have e2 : (List.take (k * s + s) B ++
+      List.replicate (k * s + s - (List.take (k * s + s) B).length) 0).drop (k * s + s)
+      = [] := by
+    apply List.drop_of_length_le
+    simp only [List.length_append, List.length_replicate]; omega
+  rw [e1, e2, List.append_nil, List.take_add]
 
 end CoapLite.Block
